@@ -261,6 +261,15 @@ R22 = {
  "C19": "every configmanager recorder stores what it is given on every path",
  "C20": "redactRawJSON decodes into an empty interface (a document of any shape is walked)",
 }
+R23 = {
+ "C01": "a streamed HTTP/2 response keeps the upstream's content-length (0 is forced for buffered bodies only); an HTTP/1 request forwarded to HTTP/2 keeps the received path when no rewrite happened",
+ "C02": "the mirror filter's context has variables of its own",
+ "C08": "HeaderMap.Range / ByteSize index a header value only under a test of its length; tars: TarsGo's recursive field skipping is reached only behind a non-recursive validation of the package (known finding C08.B18)",
+ "C11": "the tls hand-over record is taken after the handshake and the restored connection knows its version; NoticeStop writes the stop action of a Reload only behind the test of the manager's state",
+ "C16": "a stopped strict-dns cluster bumps its version and no resolver callback sends on a channel outside a select with the stop channel",
+ "C17": "an HTTP/1 local reply with a non-HTTP header map is sent with its status (default arm of the type switch)",
+ "C18": "the HTTP/2 client skips interim 1xx responses",
+}
 GENERIC = "generic hygiene over the property's packages: no loop-variable address escapes its iteration, every mutex acquired in a function is released on every path to its return and not re-acquired in a callee, a field accessed through sync/atomic is never accessed plainly outside construction (frozen exceptions), storage given back to a pool is not returned or stored, no append onto a loop-invariant slice whose result is kept, no signed remainder of a converted unsigned 64-bit value or of a wrapping signed 32-bit counter, no remainder of a 32-bit sum with an unreduced atomic counter, a receiver field a method rewrites is not retained by what the method hands it to, a key looked up in a map field under a mutex and inserted when absent is inserted in the same critical section"
 props = [json.loads(l)['id'] for l in open('/verif/properties.jsonl')]
 checks, na = [], []
@@ -294,6 +303,8 @@ for p in props:
         dec = dec + "; " + R21[p]
     if p in R22:
         dec = dec + "; " + R22[p]
+    if p in R23:
+        dec = dec + "; " + R23[p]
     dec = dec + "; " + GENERIC
     tech = tech + ", lock-balance and atomic-discipline dataflow"
     if p in R8:
